@@ -21,7 +21,7 @@ def _digests(P, tier, master, n, order=None):
         seed = driver.derive_seed(master, i)
         case = P.gen_case(random.Random(seed), tier)
         r = P.run_case(case)
-        out[str(i)] = [r["status"], r.get("clause"), r.get("digest"),
+        out[str(i)] = [r["status"], r.get("clause"), r.get("digest"), r.get("result_digest"),
                        _h(json.dumps(r.get("choices"), sort_keys=True))]
     return out
 
